@@ -5,6 +5,7 @@ import subprocess
 
 from vlib import core
 from harness import c13_lib as L
+from harness import c13_api as API
 
 PROP = 'C13'
 MODEL_MODULES = ['TenpyModel.Util.J', 'TenpyModel.C13.PyList', 'TenpyModel.Gen.C13Schedule', 'TenpyModel.C13.Sweep']
@@ -40,6 +41,8 @@ def gen_cases(rng, n, quick):
         r = rng.random()
         if r < 0.08:
             cases.append(L.gen_effh_case(rng))
+        elif r < 0.22:
+            cases.append(API.gen_case(rng, quick))
         elif r < 0.80:
             cases.append(L.gen_case(rng, quick=quick))
         elif r < 0.92:
@@ -55,6 +58,8 @@ def _eval(case):
             return L.run_infinite_case(case)
         if case['part'] == 'effh':
             return L.run_effh_case(case)
+        if case['part'] == 'api':
+            return API.run_api_case(case)
         return L.run_case(case)
     except Exception:  # noqa
         import traceback
@@ -120,7 +125,7 @@ def check_dmrg(case, out, res, fail):
     if cl and abs(cl['ov'] - 1) > 1e-8:
         fail('dmrg.mixer_cleanup-changes-the-state',
              f'|<before|after>|={cl["ov"]!r} <H> before={cl["EH_before"]!r} after={cl["EH_after"]!r}')
-    if out['q1'] != out['q0']:
+    if out['q1'] != out['q0'] and case['opts'].get('diag_method') != 'ED_all':
         fail('dmrg.total-charge-changed', f'{out["q0"]} -> {out["q1"]}')
     if out.get('effH_at'):
         fail('effH.to_matrix-differs-from-matvec',
@@ -185,6 +190,7 @@ def run_cases(ctx, cases, use_model=True, procs=8):
         res.count('hamiltonian=' + ('complex' if any(k in p for k in ('muJ', 'hy')) or isinstance(p.get('J'), list) else 'real'))
         res.count(f'combine={bool(case["opts"].get("combine"))}')
         res.count(f'diag={case["opts"].get("diag_method")}')
+        res.count(f'explicit_plus_hc={bool(p.get("explicit_plus_hc"))}')
         fails = []
 
         def fail(sig, detail):
@@ -201,12 +207,19 @@ def run_cases(ctx, cases, use_model=True, procs=8):
             if out['raise'].startswith('AssertionError') and case['opts'].get('diag_method') == 'arpack' \
                     and 'npc_to_flat' in out.get('tb', ''):
                 sig += '.arpack.zero-matvec-result'
+            if out['raise'].startswith('AttributeError') and ('RHeff' in out['raise'] or 'LHeff' in out['raise']) \
+                    and case['model'].get('explicit_plus_hc') and case['engine'] == 'SingleSiteDMRGEngine':
+                sig = 'effH.adjoint-raises.OneSiteH.combine'
             if out['raise'].startswith('ArpackError') and case['opts'].get('diag_method') == 'arpack' \
                     and 'Starting vector is zero' in out['raise']:
                 sig += '.arpack.starting-vector-zero'
             res.fail('property', sig, out['raise'] + '\n' + out.get('tb', ''), case)
             continue
-        if case['part'] in ('dmrg', 'converge'):
+        if case['part'] == 'api':
+            res.count(f'api.{case["scenario"]}')
+            for sig, detail in out.get('fails', []):
+                fail(sig, detail)
+        elif case['part'] in ('dmrg', 'converge'):
             check_dmrg(case, out, res, fail)
         elif case['part'] == 'effh':
             if out.get('effH_at'):
